@@ -49,6 +49,9 @@ BAD = ["<b>", "x", "</p>", "<td>", "</table>", "<form>", "<a href=v>", "\x00", "
        "</br>", "<option>", "</select>", "<tr>", "</title x>", "</textarea a=b>", "</title a=1 a=2>", "</script s>", "</style/>"]
 ENT_TEXTS = ["caf&eacute; au lait &nbsp;x &lt;y &quot;z&amp;w &euro;5", "&nbsp;&lt;&quot;&not;&notin;&euro;&nbsp;&lt;&quot;", "a&zwj;b&zeta;c&Zopf;&le;&ge;&lang;&larr;",
              "&aacute;&Aacute;&amp;&ang;&bull;&copy;&eacute;&ecirc;&egrave;", "x &quot;q&quot; &quest; &quot; &lt; &lambda; &le;", "&yen;&yacute;&xi;&weierp;&uuml;&times;&theta;&sigma;"]
+REWALK_TEXTS = ["<img src=a.png onerror=run() alt=pic><b>x</b>", "<meta charset=latin1><p>y</p>", "<a href=javascript:x title=t></a><i>z</i>", "<input style='color: red; position: fixed' value=v>",
+                "<p onclick=x class=c>text <b id=i>b</b></p><br clear=all>", "<meta http-equiv=content-type content='text/html; charset=koi8-r'>", "<svg><a xlink:href='javascript:y'/></svg><hr>",
+                "<span>\u00e9</span><img src=x onload=y>"]
 NAMES = ["e%d" % i for i in range(40)]
 SER_OPTS = [{}, {"omit_optional_tags": False}, {"quote_attr_values": "always", "alphabetical_attributes": True}, {"sanitize": True, "strip_whitespace": True}]
 CONTAINERS = [None, None, "div", "table", "textarea", "pre", "select", "title", "tr", "script"]
@@ -269,6 +272,37 @@ class Session(object):
             if o1 != o2:
                 return "serialize-differs", "reused serializer gives %s, a brand-new one %s for %s" % (short(o1, 200), short(o2, 200), short(op["text"], 120))
             return None
+        if kind == "rewalk":
+            # ONE tree walker object - over a document, or over a single (often childless) element - rendered several times with
+            # different serializer configurations, some of which edit tokens in place (sanitizer, meta-charset injection): every
+            # rendering equals the rendering of a brand-new walker over the same node by a brand-new serializer
+            import warnings
+            import html5lib
+            try:
+                tree, _ = h5.parse(op["text"], builder=op["walker"], full_tree=True, container="div")
+                if op["walker"] == "etree":
+                    kids = [c for c in tree if isinstance(c.tag, str)]
+                else:
+                    kids = [c for c in tree.childNodes if c.nodeType == 1]
+                node = kids[op["child"] % len(kids)] if (kids and op["child"] >= 0) else tree
+            except Exception as e:
+                return "crash:" + type(e).__name__, "parse raised %s for %s" % (type(e).__name__, short(op["text"], 120))
+            W = html5lib.getTreeWalker(op["walker"])
+            shared = W(node)
+            with warnings.catch_warnings():
+                warnings.simplefilter("ignore")
+                for k, (oi, enc) in enumerate(op["renders"]):
+                    outs = []
+                    for walker_obj in (shared, W(node)):
+                        ser = self._serializer(oi, fresh=True)
+                        try:
+                            outs.append((ser.render(walker_obj, enc), list(ser.errors)))
+                        except Exception as e:
+                            outs.append(("raise", type(e).__name__))
+                    if outs[0] != outs[1]:
+                        return "rewalk-differs", "rendering %d of one %s walker object (over %s of %s) gives %s, a brand-new walker %s" % (
+                            k + 1, op["walker"], "child %d" % op["child"] if op["child"] >= 0 else "the fragment", short(op["text"], 120), short(outs[0], 160), short(outs[1], 160))
+            return None
         if kind == "threads":
             return self._threads(op)
         raise ValueError(kind)
@@ -451,6 +485,11 @@ class ReuseMachine(RuleBasedStateMachine):
     @rule(d=_doc_free, opts=st.integers(0, len(SER_OPTS) - 1), walker=st.sampled_from(["etree", "dom"]), enc=st.sampled_from([None, None, "utf-8", "ascii"]))
     def serialize(self, d, opts, walker, enc):
         self._do({"op": "serialize", "text": d[0], "opts": opts, "walker": walker, "encoding": enc, "stateful": 0})
+
+    @rule(text=st.sampled_from(REWALK_TEXTS), walker=st.sampled_from(["etree", "etree", "dom"]), child=st.integers(-1, 3),
+          renders=st.lists(st.tuples(st.integers(0, len(SER_OPTS) - 1), st.sampled_from([None, None, "utf-8", "ascii"])), min_size=2, max_size=4))
+    def rewalk(self, text, walker, child, renders):
+        self._do({"op": "rewalk", "text": text, "walker": walker, "child": child, "renders": [list(r) for r in renders], "stateful": 1})
 
     @rule(d=_doc, opts=st.integers(0, len(SER_OPTS) - 1), walker=st.sampled_from(["etree", "dom"]), enc=st.sampled_from([None, "ascii", "utf-8", "koi8-r"]))
     def serialize2(self, d, opts, walker, enc):
